@@ -15,6 +15,8 @@
                                                                                 [..._keys_refuted]
       - Index.DropMeasurement leaves Partition.seriesIDSet stale; the measurement is then not
         dropped with its last series and stays listed                          [..._names_refuted]
+      - a series dropped from the index whose id the series file keeps (another shard has it)
+        stays in the measurement / tag-key series sets while an older file holds it [..._kept_id_refuted]
     PROVED (unbounded: all file contents, all states, all schedules):
       - C14_index_refines_live_series_partial: from ANY state in which no tag key carries a
         tombstone and tombstoned ids are deleted in the series file (checked by the judge on every
@@ -144,6 +146,14 @@ Theorem C14_index_refines_live_series_names_refuted :
     str_mem m0 (i_meas st) = true /\ spec_meas sp true = [] /\ i_mseries st m0 = [].
 Proof. exists 1%nat, 5, hist_meas. exact measurement_names_refuted. Qed.
 Print Assumptions C14_index_refines_live_series_names_refuted.
+
+Theorem C14_index_refines_live_series_kept_id_refuted :
+  exists parts maxlog ops,
+    let st := run_hist parts maxlog ops in let sp := spec_hist ops in
+    refines_live st sp = false /\
+    i_set st = [14] /\ spec_ms sp m0 = [14] /\ i_mseries st m0 = [6; 14] /\ i_kseries st m0 k0 = [6; 14].
+Proof. exists 1%nat, 5, hist_keep. exact kept_id_refuted. Qed.
+Print Assumptions C14_index_refines_live_series_kept_id_refuted.
 
 (** Non-vacuity: a concrete state after creates, a drop and a re-create with four rolled log
     files meets the state condition; the policy compacts it to one level-3 file; the listed tag
